@@ -89,6 +89,7 @@ type Run struct {
 	deadlockIsViolation bool
 	syncState map[*value]any
 	lastPanic string
+	pinned   map[*Term]uint64 // terms the path condition equates with a constant (see addPC / symLoad)
 }
 
 // dec is one recorded decision: the side taken, and for concretisations the value tested.
@@ -170,6 +171,12 @@ func (w *World) addPC(t *Term) {
 	}
 	r.pcSet[t] = true
 	r.pc = append(r.pc, t)
+	if t.Op == OpEq && t.A.W > 0 && t.B.IsConst() && !t.A.IsConst() {
+		if r.pinned == nil {
+			r.pinned = map[*Term]uint64{}
+		}
+		r.pinned[t.A] = t.B.K
+	}
 	// split conjunctions so later lookups hit
 	if t.Op == OpBAnd {
 		r.pcSet[t.A] = true
